@@ -16,7 +16,7 @@ from collections import Counter
 from vf import runner as R
 from vf.checks._accfg_common import ASSUME_COMMON, MachineError, StepBudget, Unsupported, UseBeforeDef, input_vectors, parse, stage, to_text
 from vf.corpus import assign_ids
-from vf.ctx import make_ctx
+from vf.ctx import PassTimeout, make_ctx, run_passes_limited
 from vf.gen import accdecl_gen as AD
 from vf.gen.accfg_gen import gen_program
 from vf.interp.accfg_m import AccfgMachine, Poison
@@ -371,6 +371,171 @@ def check_regmap(desc, res):
     return out
 
 
+# ------------------------------------------------------------------------------------------------
+# monitor 4: gemmx launches with channel-wise quantisation (custom launch lowering, `mult_vals` / `shift_vals` / `m` attributes)
+# ------------------------------------------------------------------------------------------------
+def run_gemmx_channel_launch(case, res):
+    """A gemmx streaming region with a rescale carrying g*n multipliers / shifts is lowered by the REAL convert-linalg-to-accfg
+    (launch op gets the attributes) and the REAL convert-accfg-to-csr; the CSR log of the launch phase is compared with the meaning
+    of the attributes: per group of n output channels the group's multipliers go to mult_0..n-1, the group's shifts to the bytes of
+    shift_0.. (byte j%4 of register j//4, the packing the setup phase uses), then the array is launched and awaited; the streamers
+    are launched once; M * groups equals the M the setup wrote; no other register is written."""
+    from vf.checks import C08
+
+    out = []
+    desc = case["desc"]
+    acc = AD.build(desc)
+    accop = acc.generate_acc_op()
+    name = accop.name_prop.string_value()
+    c = make_ctx(extra_accelerators={name: (lambda a=acc: a)})
+    nstreams = len(acc.streamer_config.data.streamers)
+    rp = case["rp"]
+    text = C08.build_text(name, nstreams, case["pats"], set(case["zero_ptrs"]), "gemmx", case["kernel"], rp, case["zps"])
+    res["evaluations"] += 1
+    try:
+        m = parse(c, text)
+        m.body.block.insert_op_before(accop, m.body.block.first_op)
+        m.verify()
+        run_passes_limited(c, m, "convert-linalg-to-accfg", 5)
+        m.verify()
+    except PassTimeout:
+        R.reject(res, "PassTimeout")
+        return out
+    except Exception as e:
+        R.reject(res, e)
+        return out
+    launches = [op for op in m.walk() if op.name == "accfg.launch"]
+    if len(launches) != 1 or "mult_vals" not in launches[0].attributes:
+        R.bump(res, "channel_launch:no_attributes")
+        return out
+    try:
+        run_passes_limited(c, m, "convert-accfg-to-csr", 5)
+        m.verify()
+    except PassTimeout:
+        R.reject(res, "PassTimeout")
+        return out
+    except Exception as e:
+        R.reject(res, e)
+        return out
+    fields = {k: v.value.data for k, v in accop.fields.data.items()}
+    lfields = {k: v.value.data for k, v in accop.launch_fields.data.items()}
+    barrier = accop.barrier.value.data
+    by_addr = {a: k for k, a in fields.items()}
+    ptr_vals = [0x2000_0000 + 0x10000 * i + 64 for i in range(nstreams)]
+    try:
+        mc = CsrMachine(m, barrier_styles={barrier: BARRIER_STYLE.get(name, 3)}, launch_addrs=[lfields["launch_gemmx"]], step_budget=900_000)
+        mc.run_func("main", ptr_vals)
+    except StepBudget:
+        out.append({"kind": "await-does-not-terminate", "detail": "step budget exceeded in lowered program (polling loop?)", "case": case})
+        return out
+    except (UseBeforeDef, MachineError) as e:
+        out.append({"kind": "lowered-program-fails", "detail": f"{type(e).__name__}: {e}"[:300], "case": case})
+        return out
+    except Unsupported:
+        R.bump(res, "oracle_skipped:Unsupported")
+        return out
+    res["programs"] += 1
+    res["compared"] += 1
+    R.bump(res, "channel_launches_checked")
+    n = acc.n
+    mult, shift = rp["mult"], rp["shift"]
+    groups = len(mult) // n
+    ev = mc.events
+    # setup phase = everything before the first launch-register write
+    la = set(lfields.values())
+    first_launch = next((i for i, e in enumerate(ev) if e[0] == "CW" and e[1] in la), None)
+    if first_launch is None:
+        out.append({"kind": "csr-trace-differs", "detail": "no launch register written", "case": case, "info": {"what": "channel-launch"}})
+        return out
+    setup_regs = {}
+    for e in ev[:first_launch]:
+        if e[0] == "CW":
+            setup_regs[e[1]] = e[2]
+    # the custom lowering rewrites M and the loop bound right before the streamer launch: find the last M write
+    phase = ev[:]
+    bad = None
+    writes = [(i, e[1], e[2]) for i, e in enumerate(phase) if e[0] == "CW"]
+    for _i, a, _v in writes:
+        if a not in by_addr and a not in la:
+            bad = f"write to undeclared register {a:#x}"
+    m_writes = [v for _i, a, v in writes if a == fields["M"]]
+    if not bad and len(m_writes) >= 2:
+        if m_writes[-1] * groups != m_writes[0]:
+            if m_writes[0] % groups == 0:
+                bad = f"M rewritten to {m_writes[-1]} for {groups} channel groups, the setup wrote {m_writes[0]}"
+            else:
+                R.bump(res, "channel_launch:m_not_divisible_out_of_domain")
+                return out
+    elif not bad:
+        bad = f"M written {len(m_writes)} time(s); the per-group launches need the row count divided by the {groups} groups"
+    streamer_launches = [i for i, a, v in writes if a == lfields["launch_streamer"]]
+    gemmx_launches = [i for i, a, v in writes if a == lfields["launch_gemmx"]]
+    if not bad and len(streamer_launches) != 1:
+        bad = f"streamers launched {len(streamer_launches)} times"
+    if not bad and len(gemmx_launches) != groups:
+        bad = f"array launched {len(gemmx_launches)} times for {groups} channel groups"
+    if not bad and streamer_launches[0] > gemmx_launches[0]:
+        bad = "array launched before the streamers"
+    if not bad:
+        prev = streamer_launches[0]
+        for g, li in enumerate(gemmx_launches):
+            seg = {a: v for i, a, v in writes if prev < i < li}
+            for j in range(n):
+                a = fields[f"mult_{j}"]
+                want = wrap(mult[g * n + j], 32)
+                if seg.get(a) != want:
+                    bad = f"group {g}: mult_{j} holds {seg.get(a)} at the launch, channel {g * n + j} needs {want}"
+                    break
+            if bad:
+                break
+            for k in range((n + 3) // 4):
+                want = 0
+                for b in range(4):
+                    if 4 * k + b < n:
+                        want |= (shift[g * n + 4 * k + b] & 0xFF) << (8 * b)
+                if seg.get(fields[f"shift_{k}"]) != want:
+                    bad = f"group {g}: shift_{k} holds {seg.get(fields[f'shift_{k}'])} at the launch, channels need {want:#x}"
+                    break
+            if bad:
+                break
+            extra = [by_addr.get(a, hex(a)) for a in seg if not (by_addr.get(a, "").startswith(("mult_", "shift_")))]
+            if extra and g > 0:
+                bad = f"group {g}: registers other than the quantisation parameters rewritten between launches: {extra[:4]}"
+                break
+            # the launch must be awaited before the next group's parameters are written
+            nxt = gemmx_launches[g + 1] if g + 1 < len(gemmx_launches) else len(phase)
+            first_write_after = next((i for i, _a, _v in writes if li < i < nxt), nxt)
+            polls = [i for i, e in enumerate(phase) if e[0] == "CR" and e[1] == barrier and li < i < first_write_after]
+            if not polls:
+                bad = f"group {g}: the launch is not awaited before the next group's parameters are written"
+                break
+            R.bump(res, "channel_groups_checked")
+            prev = li
+    if bad:
+        out.append({"kind": "csr-trace-differs", "detail": "[gemmx channel-wise launch] " + bad, "case": {**case, "channel_launch": True}, "info": {"what": "channel-launch"}})
+    else:
+        R.nontrivial(res, "channel-launch", n, groups, case["kernel"])
+    return out
+
+
+def gen_channel_launch_case(rng):
+    from vf.checks import C08
+
+    for _ in range(50):
+        desc = AD.gen_desc(rng, classes=("gemmx",), p_default=0.3)
+        acc = AD.build(desc)
+        if acc.n % 4 == 0:
+            break
+    kernel = rng.choice(["qmac+rescale", "mac+rescale"])
+    groups = rng.choice([2, 2, 3, 4])
+    rp = C08.gen_rescale_params(rng, acc.n * groups, True)
+    rp["shift"] = [rng.randint(1, 60) for _ in rp["shift"]]
+    zero_ptrs = [3]
+    pats = C08.gen_patterns(rng, acc, zero_ptrs)
+    # make the output row count a multiple of the number of groups in most cases
+    return {"desc": desc, "pats": pats, "zero_ptrs": zero_ptrs, "kernel": kernel, "rp": rp, "zps": [rng.randint(-120, 120), rng.randint(-120, 120)]}
+
+
 def attribute(v):
     """Known findings by mechanism: predicate + counterfactual (the corrected lowering *rejects* the input)."""
     info = v.get("info") or {}
@@ -432,6 +597,12 @@ def run_shard(seed, shard, n_cases, tier):
         R.seen(res, "accelerator_classes", desc[0])
         if i < 1 and shard == 0:
             R.sample(res, {"accelerator": repr(desc), "pipeline": pre, "program": prog.text[:3000], "vector": vecs[0][1]})
+    # monitor 4: channel-wise quantised gemmx launches
+    rng_ch = random.Random(seed ^ 0x51ED270B)
+    for i in range(max(2, n_cases // 3)):
+        case = gen_channel_launch_case(rng_ch)
+        for v in run_gemmx_channel_launch(case, res):
+            R.violation(res, v["kind"], v["detail"], v["case"], attribute(v), info=v.get("info"))
     # the same lowering monitors for PHS instances (switch fields between the streamer launch register and loop_bound_alu)
     for i in range(max(1, n_cases // 6)):
         desc = AD.gen_phs_desc(rng_phs)
@@ -458,6 +629,12 @@ def replay(case, res=None):
         desc = ("phs", None, tuple(tuple(x) for x in desc[2]))
     else:
         desc = (desc[0], [tuple(tuple(x) if isinstance(x, list) else x for x in sd) for sd in desc[1]] if desc[1] else None, tuple(desc[2]) if desc[2] else None)
+    if case.get("channel_launch"):
+        from vf.checks import C08
+
+        cc = dict(case)
+        cc["desc"] = C08._norm_desc(case["desc"])
+        return run_gemmx_channel_launch(cc, res)
     if case.get("regmap"):
         return check_regmap(desc, res)
     vecs = [((), case["vec"])] if case.get("vec") else []
